@@ -23,8 +23,8 @@ Definition sp_builtin_scalar (n : str) : Prop :=
 
 (* scalar input coercion: the value is accepted (and left unchanged) *)
 Definition SpecScalar (n : str) (v : json) : Prop :=
-  (n = rn_Int /\ exists z, v = JInt z /\ (- two31 <= z < two31)%Z) \/
-  (n = rn_Float /\ ((exists t, v = JFloat t) \/ (exists z, v = JInt z /\ (Z.abs z <= max_safe_int)%Z))) \/
+  (n = rn_Int /\ exists z, v = JInt z /\ (- j_two31 <= z < j_two31)%Z) \/
+  (n = rn_Float /\ ((exists t, v = JFloat t) \/ (exists z, v = JInt z /\ (Z.abs z <= j_max_safe_int)%Z))) \/
   (n = rn_String /\ exists x, v = JStr x) \/
   (n = rn_Boolean /\ exists b, v = JBool b) \/
   (n = rn_ID /\ ((exists x, v = JStr x) \/ (exists z, v = JInt z))) \/
@@ -90,9 +90,9 @@ Definition SpecVars (s : schema) (vars : list vardef) (values : jmap) (r : jmap)
 
 (* ---- "conforms to its declared type", as a checker (structural on the JSON value) ---- *)
 Definition sp_scalar_okb (n : str) (v : json) : bool :=
-  if streq n rn_Int then match v with JInt z => ((- two31 <=? z) && (z <? two31))%Z | _ => false end
+  if streq n rn_Int then match v with JInt z => ((- j_two31 <=? z) && (z <? j_two31))%Z | _ => false end
   else if streq n rn_Float then
-    match v with JFloat _ => true | JInt z => (Z.abs z <=? max_safe_int)%Z | _ => false end
+    match v with JFloat _ => true | JInt z => (Z.abs z <=? j_max_safe_int)%Z | _ => false end
   else if streq n rn_String then json_is_string v
   else if streq n rn_Boolean then json_is_boolean v
   else if streq n rn_ID then match v with JStr _ | JInt _ => true | _ => false end
@@ -117,7 +117,7 @@ Fixpoint conforms_input (s : schema) (v : json) (t : ty) {struct v} : bool :=
           | Some (EInput _ _ _ fs _) =>
               match v with
               | JObj kvs =>
-                  str_nodup (List.map fst kvs) &&
+                  j_str_nodup (List.map fst kvs) &&
                   (* no unknown keys, every value conforms to its field's type *)
                   (fix all (l : list (str * json)) : bool :=
                      match l with
@@ -162,7 +162,7 @@ Definition known_default_not_coerced (s : schema) (vars : list vardef) : bool :=
 
 (* two boundary integers: Float rejects +-(2^53 - 1) = MAX_SAFE_INT itself (`<` instead of `<=`), and ID
    rejects integers in [2^63, 2^64) (is_i64) *)
-Definition cv_edge_int (z : Z) : bool := (Z.abs z =? max_safe_int)%Z || (two63 <=? z)%Z.
+Definition cv_edge_int (z : Z) : bool := (Z.abs z =? j_max_safe_int)%Z || (j_two63 <=? z)%Z.
 
 Fixpoint json_mentions_edge_int (v : json) : bool :=
   match v with
@@ -183,8 +183,8 @@ Definition Known_C28 (s : schema) (vars : list vardef) (values : jmap) : bool :=
 Definition cv_schema_wf (s : schema) : bool :=
   forallb (fun et =>
     match et with
-    | EInput _ _ _ fs _ => str_nodup (List.map iv_name (sp_input_fields fs))
+    | EInput _ _ _ fs _ => j_str_nodup (List.map iv_name (sp_input_fields fs))
     | _ => true
     end) (sch_types s).
 
-Definition cv_vars_wf (vars : list vardef) : bool := str_nodup (List.map v_name vars).
+Definition cv_vars_wf (vars : list vardef) : bool := j_str_nodup (List.map v_name vars).
